@@ -602,6 +602,8 @@ class Polygon(Shape2D):
             self.normal,
         )
         outward_normals /= np.linalg.norm(outward_normals, axis=-1)[:, np.newaxis]
+        # The cross products point inward when the vertices run clockwise about the normal.
+        outward_normals *= np.sign(self.signed_area)
 
         # vstack the row corresponding to the constraint equation
         a = np.vstack(
